@@ -49,7 +49,7 @@ theorem tryStop_ok (lib : Placed p B) (fok : FnsOK p ck B dA fa fns) (f : Nat) (
   have hM := pow_ge2 p.w hw
   have hBM := lib.hB
   have hroom := hinv.fr.room; have htop := hinv.fr.top; have hFM := hinv.fr.lt
-  rcases hs with ⟨_, _, h⟩ | ⟨hmd, hvd, h1, hst, h2⟩
+  rcases hs with ⟨_, _, h, _⟩ | ⟨hmd, hvd, h1, hst, h2⟩
   · simp [noTry] at h
   · subst hmd
     simp only [youLevel, Bool.and_eq_true] at h1
@@ -156,13 +156,22 @@ theorem tryStop_ok (lib : Placed p B) (fok : FnsOK p ck B dA fa fns) (f : Nat) (
         ∀ (env1 : Env) (tr1 : List Ev) (res1 : Res),
           exec (256 ^ p.w) (8 * p.w) fns p.w f D (o + p.w) (upd env "%ap" (5 * p.w)) body = some (env1, tr1, res1) →
           FaultOK ck fns p.w res1 →
+          (HaltW p (.stop (F + p.w) v) ∨
+            ∀ st', Post p B ra { cont := lp.cont, brk := lp.brk, vd := true } (.stop (F + p.w) v) (("%ap", o + p.w) :: Γ) env1 F D (o + p.w)
+              (pc + 5 + nB) mm res1 st' → ¬ Halts (sphinx p) st') →
           Concl p B ra { cont := lp.cont, brk := lp.brk, vd := true } (.stop (F + p.w) v) (("%ap", o + p.w) :: Γ) env1 F D (o + p.w)
             (pc + 5) (pc + 5 + nB) mm tr1 res1 := by
-      intro mm v hi env1 tr1 res1 hb1 hfo
+      intro mm v hi env1 tr1 res1 hb1 hfo hwld
       have := ih F D ra hra { cont := lp.cont, brk := lp.brk, vd := true } hlp (.stop (F + p.w) v) sb body (("%ap", o + p.w) :: Γ)
         (upd env "%ap" (5 * p.w)) (pc + 5) (o + p.w) mm env1 tr1 res1 hplB (by rw [hlenB]; omega) hi hd1 (by simpa using hwb)
-        hpkB (by omega) hb1 hfo (Or.inl ⟨(by intro h; cases h), (fun _ => ⟨v, rfl⟩), hntb⟩)
+        hpkB (by omega) hb1 hfo (Or.inl ⟨(by intro h; cases h), (fun _ => ⟨v, rfl⟩), hntb,
+          hwld.imp id (fun h => ⟨rfl, by rw [hlenB]; exact h⟩)⟩)
       rwa [hlenB] at this
+    -- in the world in which `defeat` holds the address of a `halt`, every handler halts
+    have hW4 : HaltW p (.stop (F + p.w) (B + off_halt)) := by
+      intro a v e m'
+      cases e
+      exact Halts.halt (sys := sphinx p) (step_halt (m := m') (halt_at lib))
     have hoD : o ≤ D := by omega
     -- leaving the body: the slot of `%ap` is given back
     have back : ∀ (v : Nat) (env1 : Env) (mm : Mem),
@@ -219,63 +228,87 @@ theorem tryStop_ok (lib : Placed p B) (fok : FnsOK p ck B dA fa fns) (f : Nat) (
         by_cases hap : env1 "%ap" = 5 * p.w
         case neg => simp [hap] at hex
         simp only [hap, ne_eq, not_true_eq_false, if_false] at hex
-        -- in the world in which every defeat call halts the body halts: the jump is taken
-        obtain ⟨st4, rb4, hp4⟩ := (hbody m4 (B + off_halt) hi4 env1 tr1 .defeat hb1 trivial).2 (fun _ => rfl)
-        obtain ⟨a4, v4, e4, hpc4, _, _⟩ := hp4
-        cases e4
-        have hh4 : Halts (sphinx p) st4 := by
-          obtain ⟨pc4, mm4⟩ := st4
-          simp only at hpc4; subst hpc4
-          exact Halts.halt (sys := sphinx p) (step_halt (m := mm4) (halt_at lib))
-        have jt : Reach (sphinx p) ⟨pc + 3, m3⟩ [] ⟨pc + 5, m3⟩ := Reach.jump_taken' (sys := sphinx p) s3 (r45.1 (rb4.1 hh4))
-        -- the real run: the body up to the point of defeat, which lands in the handler
-        obtain ⟨st5, rb5, hp5⟩ := (hbody m3 (pc + 5 + nB + 2) hi3 env1 tr1 .defeat hb1 trivial).2 (fun _ => rfl)
-        obtain ⟨a5, v5, e5, hpc5, hi5, k35⟩ := hp5
-        cases e5
-        obtain ⟨pc5, m5⟩ := st5
-        simp only at hpc5 hi5 k35; subst hpc5
-        have k35 : Keep p.w m3 m5 F := k35
-        obtain ⟨_, hsz5, _, _, ht5, _⟩ := hi5.dreg _ _ rfl
-        have fr5 := hi5.fr
-        -- the handler: `defeat := halt`, `fp := try_fp`, `ap :=` the saved value
-        have t0 := step_mov (m := m5) d0 (ev_imm (B + off_halt)) (by unfold Prog.M; omega) (by omega)
-        rw [show (B + off_halt) % p.M = B + off_halt from Nat.mod_eq_of_lt (by unfold Prog.M; omega)] at t0
-        generalize hm6 : m5.writeLE (F + p.w) p.w (B + off_halt) = m6 at t0
-        have k56 : Keep p.w m5 m6 (F + 2 * p.w) := by rw [← hm6]; exact Keep.write _ _ _ _ _ _ (by omega) (by omega)
-        have fr6 := fr5.keep k56
-        have e1' : evalArg p ⟨pc + 5 + nB + 2 + 1, m6⟩ (.st F) = some F := by
-          rw [ev_st (by unfold Prog.M; omega) (by rw [k56.size]; omega), ← hm6, Mem.readLE_writeLE_disj _ _ _ _ _ _ (by omega), ht5]
-        have t1 := step_mov (m := m6) d1 e1' (by unfold Prog.M; omega) (by rw [k56.size]; omega)
-        generalize hm7 : m6.writeLE p.w p.w F = m7 at t1
-        have k67 : Keep p.w m6 m7 (2 * p.w) := by
-          rw [← hm7]; exact keep_reg m6 p.w F _ (by omega) (Or.inr rfl) fr6.fp hFM (by rw [k56.size]; omega) (Nat.le_refl _)
-        have fr7 := fr6.keep k67
-        have d2' : p.code[pc + 5 + nB + 2 + 1 + 1]? = some (ldSlot (cxOf p ck B (F + p.w)) 0 (o + p.w)) := by
-          rw [show pc + 5 + nB + 2 + 1 + 1 = pc + 5 + nB + 2 + 2 by omega]; exact d2
-        have t2 := step_ldSlot ck B 0 (o + p.w) hw fr7 d2' (by omega) hoW (by omega)
-        have hslot : m7.readLE (F - (o + p.w)) p.w = 5 * p.w := by
-          rw [k67.read _ _ (by omega), ← hm6, Mem.readLE_writeLE_disj _ _ _ _ _ _ (by omega)]
-          have := (hi5.vars "%ap" (by simp)).2.2
-          rw [look_cons_same] at this; rw [this, hap]
-        rw [hslot] at t2
-        generalize hm8 : m7.writeLE 0 p.w (5 * p.w) = m8 at t2
-        have k78 : Keep p.w m7 m8 (2 * p.w) := by
-          rw [← hm8]; exact keep_reg m7 0 (5 * p.w) _ (by omega) (Or.inl rfl) fr7.ap (by omega) (by rw [k67.size, k56.size]; omega) (Nat.le_refl _)
-        have fr8 := fr7.keep k78
-        have hi8 : SInv p .plain Γ env1 m8 F D o ra := by
-          refine (back _ _ _ hi5).same ho hoD (by rw [k78.size, k67.size, k56.size]) fr8.fp fr8.ap (fun x h5 hx => ?_) (fun a v e => by cases e)
-          rw [k78.hi x (by omega), k67.hi x (by omega), ← hm6, Mem.rd_writeLE_other _ _ _ _ _ (by omega)]
-        have km8 : Keep p.w m m8 (Md.you.kb F p.w) :=
-          ((km3.trans' (k35.mono (by omega))).trans' k56).trans' ((k67.mono (by omega)).trans' (k78.mono (by omega)))
-        have r08 : Reach (sphinx p) ⟨pc, m⟩ tr1 ⟨pc + 5 + nB + 2 + 3, m8⟩ := by
+        -- the handler prologue, from any state in which the body can be defeated:
+        -- `defeat := halt`, `fp := try_fp`, `ap :=` the saved value
+        have pro : ∀ m5, SInv p (.stop (F + p.w) (pc + 5 + nB + 2)) (("%ap", o + p.w) :: Γ) env1 m5 F D (o + p.w) ra → Keep p.w m3 m5 F →
+            ∃ m8, Reach (sphinx p) ⟨pc + 5 + nB + 2, m5⟩ [] ⟨pc + 5 + nB + 2 + 3, m8⟩ ∧ SInv p .plain Γ env1 m8 F D o ra ∧
+              Keep p.w m m8 (Md.you.kb F p.w) := by
+          intro m5 hi5 k35
+          obtain ⟨_, hsz5, _, _, ht5, _⟩ := hi5.dreg _ _ rfl
+          have fr5 := hi5.fr
+          have t0 := step_mov (m := m5) d0 (ev_imm (B + off_halt)) (by unfold Prog.M; omega) (by omega)
+          rw [show (B + off_halt) % p.M = B + off_halt from Nat.mod_eq_of_lt (by unfold Prog.M; omega)] at t0
+          generalize hm6 : m5.writeLE (F + p.w) p.w (B + off_halt) = m6 at t0
+          have k56 : Keep p.w m5 m6 (F + 2 * p.w) := by rw [← hm6]; exact Keep.write _ _ _ _ _ _ (by omega) (by omega)
+          have fr6 := fr5.keep k56
+          have e1' : evalArg p ⟨pc + 5 + nB + 2 + 1, m6⟩ (.st F) = some F := by
+            rw [ev_st (by unfold Prog.M; omega) (by rw [k56.size]; omega), ← hm6, Mem.readLE_writeLE_disj _ _ _ _ _ _ (by omega), ht5]
+          have t1 := step_mov (m := m6) d1 e1' (by unfold Prog.M; omega) (by rw [k56.size]; omega)
+          generalize hm7 : m6.writeLE p.w p.w F = m7 at t1
+          have k67 : Keep p.w m6 m7 (2 * p.w) := by
+            rw [← hm7]; exact keep_reg m6 p.w F _ (by omega) (Or.inr rfl) fr6.fp hFM (by rw [k56.size]; omega) (Nat.le_refl _)
+          have fr7 := fr6.keep k67
+          have d2' : p.code[pc + 5 + nB + 2 + 1 + 1]? = some (ldSlot (cxOf p ck B (F + p.w)) 0 (o + p.w)) := by
+            rw [show pc + 5 + nB + 2 + 1 + 1 = pc + 5 + nB + 2 + 2 by omega]; exact d2
+          have t2 := step_ldSlot ck B 0 (o + p.w) hw fr7 d2' (by omega) hoW (by omega)
+          have hslot : m7.readLE (F - (o + p.w)) p.w = 5 * p.w := by
+            rw [k67.read _ _ (by omega), ← hm6, Mem.readLE_writeLE_disj _ _ _ _ _ _ (by omega)]
+            have := (hi5.vars "%ap" (by simp)).2.2
+            rw [look_cons_same] at this; rw [this, hap]
+          rw [hslot] at t2
+          generalize hm8 : m7.writeLE 0 p.w (5 * p.w) = m8 at t2
+          have k78 : Keep p.w m7 m8 (2 * p.w) := by
+            rw [← hm8]; exact keep_reg m7 0 (5 * p.w) _ (by omega) (Or.inl rfl) fr7.ap (by omega) (by rw [k67.size, k56.size]; omega) (Nat.le_refl _)
+          have fr8 := fr7.keep k78
+          have hi8 : SInv p .plain Γ env1 m8 F D o ra := by
+            refine (back _ _ _ hi5).same ho hoD (by rw [k78.size, k67.size, k56.size]) fr8.fp fr8.ap (fun x h5 hx => ?_) (fun a v e => by cases e)
+            rw [k78.hi x (by omega), k67.hi x (by omega), ← hm6, Mem.rd_writeLE_other _ _ _ _ _ (by omega)]
+          have km8 : Keep p.w m m8 (Md.you.kb F p.w) :=
+            ((km3.trans' (k35.mono (by omega))).trans' k56).trans' ((k67.mono (by omega)).trans' (k78.mono (by omega)))
           have rp := (Reach.of_next (sys := sphinx p) t0).trans ((Reach.of_next (sys := sphinx p) t1).trans (Reach.of_next (sys := sphinx p) t2))
-          have := r03.trans (jt.trans (rb5.trans rp))
-          simpa [evl, Nat.add_assoc] using this
+          exact ⟨m8, by simpa [evl, Nat.add_assoc] using rp, hi8, km8⟩
+        -- given what happens from the handler on, in any such state: the two runs of the body
+        have close : ∀ (trA : List Ev) (envF : Env) (resF : Res), resF ≠ .defeat →
+            (∀ st', Post p B ra lp .you Γ envF F D o (pc + 5 + nB + 2 + 3 + nH + (cS (cxOf p ck B (F + p.w)) fa lp Γ (pc + 5 + nB + 2 + 3 + nH) o k).length) m resF st' →
+              ¬ Halts (sphinx p) st') →
+            (∀ m5, SInv p (.stop (F + p.w) (pc + 5 + nB + 2)) (("%ap", o + p.w) :: Γ) env1 m5 F D (o + p.w) ra → Keep p.w m3 m5 F →
+              ∃ stE, Reach (sphinx p) ⟨pc + 5 + nB + 2, m5⟩ trA stE ∧
+                Post p B ra lp .you Γ envF F D o (pc + 5 + nB + 2 + 3 + nH + (cS (cxOf p ck B (F + p.w)) fa lp Γ (pc + 5 + nB + 2 + 3 + nH) o k).length) m resF stE) →
+            Concl p B ra lp .you Γ envF F D o pc
+              (pc + 5 + nB + 2 + 3 + nH + (cS (cxOf p ck B (F + p.w)) fa lp Γ (pc + 5 + nB + 2 + 3 + nH) o k).length) m (tr1 ++ trA) resF := by
+          intro trA envF resF hndF hfinF after
+          -- in the world in which every defeat call halts the body halts: the jump is taken
+          obtain ⟨st4, rb4, hp4⟩ := (hbody m4 (B + off_halt) hi4 env1 tr1 .defeat hb1 trivial (Or.inl hW4)).2 (fun _ => rfl)
+          obtain ⟨a4, v4, e4, hpc4, _, _⟩ := hp4
+          cases e4
+          have hh4 : Halts (sphinx p) st4 := by
+            obtain ⟨pc4, mm4⟩ := st4
+            simp only at hpc4; subst hpc4
+            exact Halts.halt (sys := sphinx p) (step_halt (m := mm4) (halt_at lib))
+          have jt : Reach (sphinx p) ⟨pc + 3, m3⟩ [] ⟨pc + 5, m3⟩ := Reach.jump_taken' (sys := sphinx p) s3 (r45.1 (rb4.1 hh4))
+          -- the real run: no state in which the body is defeated halts, because the handler and the rest never do
+          have fin3 : ∀ st', Post p B ra { cont := lp.cont, brk := lp.brk, vd := true } (.stop (F + p.w) (pc + 5 + nB + 2)) (("%ap", o + p.w) :: Γ) env1 F D (o + p.w)
+              (pc + 5 + nB) m3 .defeat st' → ¬ Halts (sphinx p) st' := by
+            intro st' hp
+            obtain ⟨a5, v5, e5, hpc5, hi5, k35⟩ := hp
+            cases e5
+            obtain ⟨pc5, m5⟩ := st'
+            simp only at hpc5 hi5 k35; subst hpc5
+            obtain ⟨stE, rE, hpE⟩ := after m5 hi5 k35
+            exact (rE.exec (hfinF stE hpE)).2
+          obtain ⟨st5, rb5, hp5⟩ := (hbody m3 (pc + 5 + nB + 2) hi3 env1 tr1 .defeat hb1 trivial (Or.inr fin3)).2 (fun _ => rfl)
+          obtain ⟨a5, v5, e5, hpc5, hi5, k35⟩ := hp5
+          cases e5
+          obtain ⟨pc5, m5⟩ := st5
+          simp only at hpc5 hi5 k35; subst hpc5
+          obtain ⟨stE, rE, hpE⟩ := after m5 hi5 k35
+          exact ⟨fun hd' => absurd hd' hndF, fun _ => ⟨stE, by simpa using r03.trans (jt.trans (rb5.trans rE)), hpE⟩⟩
         cases hh2 : exec (256 ^ p.w) (8 * p.w) fns p.w f D o env1 handler with
         | none => simp [hh2] at hex
         | some rh =>
           obtain ⟨env2, tr2, res2⟩ := rh
           simp only [hh2, Option.bind_some] at hex
+          have hnd2 : res2 ≠ .defeat := exec_no_defeat _ _ _ _ false _ _ _ _ _ _ _ _ (plain_youLevel _ _ hplh) hh2
           by_cases hn2 : res2 = .norm
           · subst hn2
             simp only [if_true] at hex
@@ -285,9 +318,13 @@ theorem tryStop_ok (lib : Placed p B) (fok : FnsOK p ck B dA fa fns) (f : Nat) (
               obtain ⟨env3, tr3, res3⟩ := rk
               simp only [hk, Option.bind_some, Option.pure_def, Option.some.injEq, Prod.mk.injEq] at hex
               obtain ⟨rfl, rfl, rfl⟩ := hex
+              have hnd3 : res3 ≠ .defeat := exec_no_defeat _ _ _ _ _ _ _ _ _ _ _ _ _ hyk hk
+              rw [List.append_assoc]
+              refine close (tr2 ++ tr3) env3 res3 hnd3 h2 (fun m5 hi5 k35 => ?_)
+              obtain ⟨m8, rp, hi8, km8⟩ := pro m5 hi5 k35
               have hhh := ih F D ra hra lp hlp .plain sb handler Γ env1 (pc + 5 + nB + 2 + 3) o m8 env2 tr2 .norm hplH (by rw [hlenH]; omega)
                 hi8 hd hwh hpkH ho hh2 trivial
-                (Or.inl ⟨(by intro h; cases h), (by intro h; rw [hvd] at h; cases h), plain_noTry _ hplh⟩)
+                (Or.inl ⟨(by intro h; cases h), (by intro h; rw [hvd] at h; cases h), plain_noTry _ hplh, Or.inl HaltW.plain⟩)
               rw [hlenH] at hhh
               obtain ⟨st9, r9, hp9⟩ := hhh.2 (nd (by decide))
               have hp9 := hp9.toYou
@@ -296,15 +333,18 @@ theorem tryStop_ok (lib : Placed p B) (fok : FnsOK p ck B dA fa fns) (f : Nat) (
               obtain ⟨hpc9, hi9, k89⟩ := hp9
               subst hpc9
               have km9 : Keep p.w m m9 (Md.you.kb F p.w) := km8.trans' k89
-              have r09 : Reach (sphinx p) ⟨pc, m⟩ (tr1 ++ tr2) ⟨pc + 5 + nB + 2 + 3 + nH, m9⟩ := r08.trans r9
-              exact Concl.pre' r09 km9 (contK env2 m9 env3 tr3 res3 hi9 km9 hk hck h2) (post_conv rfl)
+              obtain ⟨stE, rE, hpE⟩ := (contK env2 m9 env3 tr3 res3 hi9 km9 hk hck h2).2 (nd hnd3)
+              exact ⟨stE, by simpa using rp.trans (r9.trans rE), hpE.rebase km9⟩
           · simp only [hn2, if_false, Option.pure_def, Option.some.injEq, Prod.mk.injEq] at hex
             obtain ⟨rfl, rfl, rfl⟩ := hex
+            refine close tr2 env2 res2 hnd2 h2 (fun m5 hi5 k35 => ?_)
+            obtain ⟨m8, rp, hi8, km8⟩ := pro m5 hi5 k35
             have hhh := ih F D ra hra lp hlp .plain sb handler Γ env1 (pc + 5 + nB + 2 + 3) o m8 env2 tr2 res2 hplH (by rw [hlenH]; omega)
               hi8 hd hwh hpkH ho hh2 hck
-              (Or.inl ⟨(by intro h; cases h), (by intro h; rw [hvd] at h; cases h), plain_noTry _ hplh⟩)
+              (Or.inl ⟨(by intro h; cases h), (by intro h; rw [hvd] at h; cases h), plain_noTry _ hplh, Or.inl HaltW.plain⟩)
             rw [hlenH] at hhh
-            exact Concl.pre' r08 km8 hhh.toYou (convN env2 res2 hn2 _ _)
+            obtain ⟨stE, rE, hpE⟩ := hhh.toYou.2 (nd hnd2)
+            exact ⟨stE, by simpa using rp.trans rE, convN env2 res2 hn2 _ _ stE (hpE.rebase km8)⟩
       · simp only [hdft, if_false] at hex
         by_cases hn : res1 = .norm
         · subst hn
@@ -316,7 +356,7 @@ theorem tryStop_ok (lib : Placed p B) (fok : FnsOK p ck B dA fa fns) (f : Nat) (
             simp only [hk, Option.bind_some, Option.pure_def, Option.some.injEq, Prod.mk.injEq] at hex
             obtain ⟨rfl, rfl, rfl⟩ := hex
             -- the body is not defeated: it runs in the world in which every defeat call halts
-            obtain ⟨st5, rb, hp⟩ := (hbody m4 (B + off_halt) hi4 env1 tr1 .norm hb1 trivial).2 (nd (by decide))
+            obtain ⟨st5, rb, hp⟩ := (hbody m4 (B + off_halt) hi4 env1 tr1 .norm hb1 trivial (Or.inl hW4)).2 (nd (by decide))
             obtain ⟨pc5, m5⟩ := st5
             simp only [Post] at hp
             obtain ⟨hpc5, hi5, k45⟩ := hp
@@ -332,7 +372,7 @@ theorem tryStop_ok (lib : Placed p B) (fok : FnsOK p ck B dA fa fns) (f : Nat) (
             exact ⟨fun hd' => absurd hd' hnd3, fun _ => ⟨st', by simpa using r03.trans (jn.trans rbody), hp3.rebase km5⟩⟩
         · simp only [hn, if_false, Option.pure_def, Option.some.injEq, Prod.mk.injEq] at hex
           obtain ⟨rfl, rfl, rfl⟩ := hex
-          obtain ⟨st1, r1, hp1⟩ := (hbody m4 (B + off_halt) hi4 env1 tr1 res1 hb1 hck).2 (nd hdft)
+          obtain ⟨st1, r1, hp1⟩ := (hbody m4 (B + off_halt) hi4 env1 tr1 res1 hb1 hck (Or.inl hW4)).2 (nd hdft)
           have hp1' : Post p B ra lp .you Γ env1 F D o
               (pc + 5 + nB + 2 + 3 + nH + (cS (cxOf p ck B (F + p.w)) fa lp Γ (pc + 5 + nB + 2 + 3 + nH) o k).length) m res1 st1 :=
             (convS _ env1 res1 hn hdft _ _ m4 st1 hp1).rebase km4
